@@ -325,7 +325,7 @@ def apply_model(m: AclM, op: dict) -> Expect:  # noqa: C901
                 elif r.kind == "ace" and (not op["flags"] or r.proto == 6):
                     r.flags, r.logs = tuple(op["flags"]), tuple(op["logs"])
         return Expect(m)
-    if k in ("set_note", "scribble_ipnets", "foreign_parse"):
+    if k in ("set_note", "scribble_ipnets", "foreign_parse", "scribble_names"):
         return Expect(m)
     if k == "set_remark_text":
         if n:
